@@ -3,7 +3,7 @@
    demands.  Each theorem is an explicit witness evaluated by vm_compute, with
    the real MaxLength where sizes matter. *)
 From Coq Require Import ZArith List Bool Lia.
-From Tally Require Import Base.Obs Gen.Params Model.Udp Proof.UdpP.
+From Tally Require Import Base.ObsCore Gen.Params Model.Udp Proof.UdpP.
 Import ListNotations.
 Open Scope Z_scope.
 
